@@ -627,6 +627,18 @@ package pipeline
 //@   pure
 //@   ensures result == (r.deadQueue != nil)
 
+// Stop: the dead queue is stopped only after the main output has stopped - the
+// main output's Stop waits for its in-flight batches, and a batch that exhausts
+// its retries during shutdown must still find a dead queue that accepts events.
+
+//@ func (*Router).Stop
+//@   ghost nstop int = 0
+//@   assert at "r.output.Stop()" nstop == 0
+//@   assert at "r.deadQueue.Stop()" nstop == 1
+//@   callee Stop()
+//@     pure
+//@     set nstop := nstop + 1
+
 //@ func (*Router).Out
 //@   ghost nout int = 0
 //@   ensures nout == 1
